@@ -29,7 +29,7 @@ func generalOps() []string {
 		"kill", "killQueue", "addDrain", "removeDrain", "terminate", "cancelTerminate",
 		"advance", "advance", "advanceSmall", "tick",
 		"parkSend", "releaseSend", "releaseSend", "waitParked", "killParked", "releaseAuth", "releaseAuth",
-		"raceTimer", "raceTimer", "raceCancel",
+		"raceTimer", "raceTimer", "raceCancel", "syncDuplicate",
 	}
 }
 
@@ -163,7 +163,7 @@ func TestC05RoutingAndDrains(t *testing.T) {
 		"execute", "execute", "execute", "execute",
 		"sync", "sync", "sync", "sync", "syncCompleted", "syncCompleted",
 		"addDrain", "addDrain", "removeDrain", "removeDrain", "terminate", "cancelTerminate",
-		"cancelSync", "cancelStream", "killQueue",
+		"cancelSync", "cancelStream", "killQueue", "syncDuplicate", "syncIdle",
 		"advance", "advance", "advanceSmall", "tick",
 	}
 	p := &profile{
